@@ -172,6 +172,10 @@ def make_def(rng, mode):
             fields.append(fd)
             pos += fd["size"]
     delim = codec.enc_data(rng.choice([";", ",", "|", "::"])) if mode == "delim" else None
+    if mode != "delim" and rng.random() < 0.4:
+        # every field carries its absolute position: the declaration order is free
+        # (the data of an item follow the declaration order)
+        rng.shuffle(fields)
     return {"ident": codec.enc_str(ident), "digits": digits, "fields": fields, "delimiter": delim}
 
 
@@ -226,7 +230,7 @@ def corpus_cases():
 
 def chunks(tier, seed):
     ch = [{"kind": "corpus"}]
-    nrand = {"quick": 4000, "thorough": 100000}.get(tier, 12000)
+    nrand = {"quick": 4000, "thorough": 400000}.get(tier, 12000)
     per = max(1, nrand // 16)
     for i in range(16):
         ch.append({"kind": "random", "seed": seed * 1000 + i, "n": per})
